@@ -104,8 +104,58 @@ func checkC14(c *Ctx, r *Report) {
 	// reduced models keep one entry per declared field: instantiateGenericModel indexes them by declaration index
 	ruleEach(c, r, "C14.b", "(core/metadata.StructMeta).Reduce",
 		func(fi *FuncInfo) func(ast.Expr) bool { return w.rangeOverField(fi, "core/metadata.StructMeta.Fields") }, "s.Fields",
-		func(fi *FuncInfo) func(ast.Node) bool { return w.callPred(fi, "(core/metadata.FieldMeta).Reduce") }, "field.Reduce", nil, true,
-		"StructMeta.Reduce yields exactly one reduced field per declared field (index-compatible with the declaration; a filtered list makes instantiateGenericModel index out of range)")
+		func(fi *FuncInfo) func(ast.Node) bool { return w.callPred(fi, "(core/metadata.FieldMeta).Reduce") }, "field.Reduce",
+		func(fi *FuncInfo) []skipSpec {
+			return []skipSpec{{Cond: func(e ast.Expr) bool { return len(jsonVisibilityGaps(w.exprAtomsDeep(fi, e))) == 0 }, Pol: false, Desc: "the field is not JSON-visible"}}
+		}, true,
+		"StructMeta.Reduce yields exactly one reduced field per JSON-visible declared field")
+	// ... and instantiateGenericModel, which addresses the reduced fields by position while it walks
+	// the declared ones, leaves out exactly the same fields (else it indexes past the end, or
+	// retypes the wrong property)
+	{
+		profile := func(fnKey, pkg string) (map[string]bool, []string) {
+			out := map[string]bool{}
+			var sites []string
+			for _, sk := range w.skipSites(pkg) {
+				if sk.Fn != fnKey || !strings.Contains(sk.Over, "core/metadata.FieldMeta") {
+					continue
+				}
+				sites = append(sites, w.pos(sk.Pos))
+				for f := range sk.Atoms.Fields {
+					if f != "core/metadata.StructMeta.Fields" {
+						out["field:"+f] = true
+					}
+				}
+				for cl := range sk.Atoms.Calls {
+					if n := normCallName(strings.TrimPrefix(cl, "inlined:")); !isPlumbingCall(n) {
+						out["call:"+n] = true
+					}
+				}
+				for l := range sk.Atoms.Lits {
+					if strings.HasPrefix(l, "\"") {
+						out["lit:"+l] = true
+					}
+				}
+			}
+			return out, sites
+		}
+		const red, inst = "(core/metadata.StructMeta).Reduce", "graphs/symboldg.instantiateGenericModel"
+		a, sa := profile(red, "core/metadata")
+		b, sb := profile(inst, "graphs/symboldg")
+		viol := ""
+		for k := range a {
+			if !b[k] {
+				viol = fmt.Sprintf("%s leaves fields out depending on %s, %s does not: the positions of the reduced fields no longer line up with the declared ones (index out of range, or the type argument written to the wrong property)", red, k, inst)
+			}
+		}
+		for k := range b {
+			if !a[k] {
+				viol = fmt.Sprintf("%s leaves fields out depending on %s, %s does not: the positions of the reduced fields no longer line up with the declared ones (index out of range, or the type argument written to the wrong property)", inst, k, red)
+			}
+		}
+		o := r.add("C14.b", "sibling", "reduced-fields~declared-fields", "the reduction of a struct and the instantiation of a generic struct skip the same declared fields, so positions in the reduced field list line up", []string{red, inst}, append(sa, sb...), viol)
+		o.NonTrivial = true
+	}
 	ruleSkipInventory(c, r, "C14.b", loadSkipTable(c.VerifDir), 1, "core/metadata")
 	// file-system errors are never lost: after a failing os/io call every way on is a failure exit
 	checkIOErrors(c, r, tbl)
